@@ -399,6 +399,24 @@ theorem opened_v1_has_get (o : WOpts) (roots : Option (List Cid)) (log : List Bl
   obtain ⟨hp, hapi, _, hidx⟩ := opened_v1_indexOK o roots log r hopen hwf hmax h63 hok hsz hkept
   exact ro_has_get o roots log r hp hapi hidx hlog c hid
 
+/-- (5') The same end-to-end statement for a finalised CARv2 read through its EMBEDDED index by the
+    blockstore: Has is true exactly for the keys some section carries, Get returns the bytes of such a
+    section, not-found otherwise. -/
+theorem opened_v2_has_get (o : WOpts) (dp ip : Nat) (roots : Option (List Cid)) (log : List Block)
+    (fi : Bool) (codec : Nat) (rs : List Record) (ix : Index) (r : ReadOnly)
+    (hix : Index.load codec rs = some ix) (hrec : RecordsOK rs)
+    (hrs : ∀ rc, rc ∈ rs ↔ rc ∈ keptRecords (roIdxOpts { o with storeIdentity := true }) (headerSize ⟨roots, 1⟩) log)
+    (hopen : openReadOnly .blockstore o .auto (layoutV2 dp ip (payload roots log) true fi ix.bytes) = .ok r)
+    (hwf : (CarHeader.mk roots 1).wf) (hmax : (encodeHeaderBody ⟨roots, 1⟩).length ≤ o.maxHeader)
+    (h63 : (encodeHeaderBody ⟨roots, 1⟩).length < 2 ^ 63) (h10 : 10 ≤ o.maxHeader)
+    (lok : LayoutOK dp ip (payload roots log).length)
+    (hlog : ∀ b ∈ log, b.getOk o) (c : Cid) (hid : identityShortcut o c = false) :
+    (r.step o (.has c) = .bool (log.any fun b => Spec.sameKey o b.cid c)) ∧
+    ((∃ b ∈ log, Spec.sameKey o b.cid c = true ∧ r.step o (.get c) = .data b.data) ∨
+     ((∀ b ∈ log, Spec.sameKey o b.cid c = false) ∧ r.step o (.get c) = .err .notFound)) := by
+  obtain ⟨hp, hapi, _, hidx⟩ := opened_v2_embedded_indexOK .blockstore o dp ip roots log fi codec rs ix r hix hrec hrs hopen
+    hwf hmax h63 h10 lok
+  exact ro_has_get o roots log r hp hapi hidx hlog c hid
 /-- Non-vacuity: the empty payload has a (trivially) sound and complete index. -/
 example (o : WOpts) : IndexOK o (fun _ => []) 17 [] :=
   ⟨by simp, by intro l1 b l2 _ h; simp at h⟩
